@@ -67,6 +67,21 @@ void shrink(matrix *x, double delta)
   }
 }
 
+/* largest distance, along any coordinate, between the best vertex and another one */
+double simplex_size(matrix *x)
+{
+  size_t i, j;
+  double size = 0.f;
+  for(i = 1; i < x->row; i++){
+    for(j = 0; j < x->col-1; j++){
+      if(fabs(x->data[i][j]-x->data[0][j]) > size){
+        size = fabs(x->data[i][j]-x->data[0][j]);
+      }
+    }
+  }
+  return size;
+}
+
 /*
  * Implementing the Nelder-Mead simplex algorithm with adaptive parameters
  * Fuchang Gao, Lixing Han
@@ -243,7 +258,11 @@ double NelderMeadSimplex(double (*func)(),
     sleep(2);
     */
 
-    if(fabs(x->data[x->row-1][x->col-1]-x->data[0][x->col-1]) < xtol){
+    /* The vertices may all carry the same value without being the same point
+     * (e.g. three points on one level curve): the search is over only when
+     * the simplex itself has collapsed as well.
+     */
+    if(fabs(x->data[x->row-1][x->col-1]-x->data[0][x->col-1]) < xtol && simplex_size(x) < xtol){
       break;
     }
     else{
